@@ -12,6 +12,7 @@ Case kinds
   {'kind': 'symbols', 'syms': [[name|None, type int, lags|None, leads|None, equation|None, code|None]]} | {'kind': 'symbols', 'script': s}
         symbols_to_dataframe, then dataframe_to_symbols
   {'kind': 't2s', 'cols': [[name, pandas dtype, [cells]]]}      dataframe_to_symbols of a hand-made frame (malformed stream)
+  {'kind': 'pd', 'op': 'series'|'infer'|'cast', 'entry': id, ...}    one entry of the library-behaviour table (see pd_table)
 Cells (JSON): ['i', n] ['fi', n] (integral float) ['ff', m, e] (m / 2**e, m odd) ['nz'] (-0.0) ['nan'] ['pinf'] ['ninf'] ['none']
   ['b', bool] ['s', str] ['tup', a, b] (a, b int or str: a row of a two-level MultiIndex) ['per', freq code, ordinal] ['ts', ns] ['td', ns].
 K_table runs the extracted Gallina model (Data/Table.v: model_to_table, from_table, linker_to_tables, symbols_to_table,
@@ -32,13 +33,17 @@ SOURCES = ['tools.py', 'core/models.py', 'core/linkers.py', 'core/containers.py'
 K_NAME = ('K_table (extracted Data.Table model_to_table / from_table / linker_to_tables / symbols_to_table / table_to_symbols vs '
           'to_dataframe / from_dataframe / to_dataframes / symbols_to_dataframe / dataframe_to_symbols: index kind, dtype and labels, '
           'column order, dtypes and every cell, exception classes)')
-RULE = ('structured generator: models over every span type (range, list of int / str / mixed hashables incl. None, float, bool, tuple, '
+RULE = ('table-validation pass first: every entry of the pandas / NumPy behaviour table the model relies on (T1 column dtype per array dtype, T2 '
+        'inference per combination of Python objects for columns and indexes, T3 astype per (column dtype, model dtype, cell); about 330 fixed '
+        'cases, buckets pdtable/<entry>) is evaluated on the running pandas / NumPy and compared with pd_of_series / pd_infer / pd_index / np_cast '
+        'on every run; then the structured generator: models over every span type (range, list of int / str / mixed hashables incl. None, float, bool, tuple, '
         'big ints; tuple; NumPy int / str arrays; pandas Index, PeriodIndex Y / Q, DatetimeIndex), lengths 0..5 (quick) / 0..7 (thorough), model '
         'dtype float / int / bool / str, 0..4 class variables with and without leading underscores (also "_" alone, "__x", "x_"), '
         '0..3 runtime-added variables of every dtype, written status / iterations or really solved models, all 8 flag combinations, '
         'round-trip classes inside the guard (class lists every exported variable, dtype= equal to the series dtype / object / exactly representable float; about half of the export cases) and outside it (permuted, extended, reduced, duplicated NAMES; every dtype=; strict / non-strict; default values: K only); every name set x '
         'every flag combination x every model dtype on a two-period span; hand-edited names lists (duplicates, status / iterations, '
-        'unknown names: malformed stream, K only); plain VectorContainers and VectorContainer.to_dataframe on model objects; linkers with '
+        'unknown names: malformed stream, K only); AliasMixin models (plain path, use_aliases not given) and PandasIndexFeaturesMixin models; '
+        'from_dataframe with engine= passed through and with extra positional arguments (TypeError); plain VectorContainers and VectorContainer.to_dataframe on model objects; linkers with '
         '0..3 submodels keyed by str / int (incl. a key equal to the linker name); symbol lists from parsed C01-grammar scripts and '
         'hand-made lists exercising every optional field None / not None, lags / leads at 0, +-1, +-2^53, +-(2^53+1), int64 bounds and '
         'beyond, every Type value; hand-made frames for dataframe_to_symbols.  Non-trivial = at least 2 periods and 2 exported columns '
@@ -63,6 +68,12 @@ def enc(x):
     import pandas as pd
     if x is None:
         return ['none']
+    if isinstance(x, np.datetime64):
+        x = pd.Timestamp(x)
+    elif isinstance(x, np.timedelta64):
+        x = pd.Timedelta(x)
+    if x is pd.NaT:
+        return ['other', 'NaT']
     if isinstance(x, (bool, np.bool_)):
         return ['b', bool(x)]
     if isinstance(x, (int, np.integer)):
@@ -311,7 +322,17 @@ def _attempt(f):
 def _build_model(case):
     import fsic
     span = build_span(case['span'])
-    M = type('M', (fsic.BaseModel,), {'NAMES': list(case['names'])})
+    attrs = {'NAMES': list(case['names'])}
+    bases = (fsic.BaseModel,)
+    if case.get('mixin') == 'alias':
+        from fsic.extensions import AliasMixin
+        bases = (AliasMixin, fsic.BaseModel)
+        if case['names']:
+            attrs['ALIASES'] = {'A_' + case['names'][0]: case['names'][0], 'B_alias': 'A_' + case['names'][0]}
+    elif case.get('mixin') == 'pandasidx':
+        from fsic.extensions import PandasIndexFeaturesMixin
+        bases = (PandasIndexFeaturesMixin, fsic.BaseModel)
+    M = type('M', bases, attrs)
     vals = {k: [dec(c) for c in v] for k, v in case['vals'].items()}
     m = M(span, dtype=PYT[case['dtype']], **vals)
     for name, dt, cells in case.get('extra', []):
@@ -363,7 +384,10 @@ def impl(case):
                 kw['default_value'] = dec(cl['default'])
             if cl.get('strict'):
                 kw['strict'] = True
-            obs['rt'] = _attempt(lambda: obs_model(M2.from_dataframe(df, **kw)))
+            if cl.get('engine'):
+                kw['engine'] = cl['engine']                      # passed through to __init__ unchanged
+            extra = ['python'] * int(cl.get('nargs') or 0)         # extra positional arguments
+            obs['rt'] = _attempt(lambda: obs_model(M2.from_dataframe(df, *extra, **kw)))
         return obs
     if k == 'container':
         c = fsic.core.containers.VectorContainer(build_span(case['span'])) if not case.get('model') else fsic.BaseModel(build_span(case['span']))
@@ -406,6 +430,27 @@ def impl(case):
         if df is not None:
             obs['rt'] = _attempt(lambda: [sym_obs(s) for s in dataframe_to_symbols(df)])
         return obs
+    if k == 'pd':
+        import numpy as np
+        import pandas as pd
+        op = case['op']
+        if op in ('series', 'cast'):
+            arr = np.array([dec(c) for c in case['cells']], dtype=PYT[case['dtype']])
+            col = pd.DataFrame({'c': arr})['c']
+            if op == 'series':
+                return {'arr': [np_kind(arr), [enc(x) for x in arr]], 'dtype': pd_dtype_name(col.dtype), 'cells': [enc(x) for x in list(col.values)]}
+
+            def cast():
+                out = np.full(len(arr), col.values).astype(PYT[case['target']])
+                return [np_kind(out), [enc(x) for x in out]]
+            return {'arr': [np_kind(arr), [enc(x) for x in arr]], 'cast': _attempt(cast)}
+        vals = [dec(c) for c in case['cells']]
+        obs = {}
+        if vals:
+            col = pd.DataFrame([{'c': x} for x in vals])['c']
+            obs['col'] = {'dtype': pd_dtype_name(col.dtype), 'cells': [enc(x) for x in list(col.values)]}
+        obs['index'] = _attempt(lambda: obs_table(pd.DataFrame({'v': list(range(len(vals)))}, index=vals))['index'])
+        return obs
     if k == 't2s':
         import numpy as np
         import pandas as pd
@@ -438,7 +483,8 @@ EXTRACT_V = r'''
 Require Import PyBase Generated Symbols Table.
 Require Import ExtrOcamlBasic ExtrOcamlString.
 Extraction Language OCaml.
-Extraction "%(out)s" model_to_table container_to_table from_table linker_to_tables symbols_to_table table_to_symbols
+Extraction "%(out)s" model_to_table container_to_table from_table from_dataframe_call linker_to_tables symbols_to_table table_to_symbols
+  pd_infer pd_index pd_of_series cast_series
   type_of_value type_value string_of_Z Z_of_string.
 '''
 
@@ -519,8 +565,10 @@ let model_of = function
         fstatus = series_of st; fiters = series_of it }
   | _ -> failwith "model"
 let class_of = function
-  | L [A "class"; names; d; dv; strict] -> { cnames = names_of names; cdtype = ndt_of d; cdefault = cell_of dv; cstrict = bool_of strict }
+  | L (A "class" :: names :: d :: dv :: strict :: _) -> { cnames = names_of names; cdtype = ndt_of d; cdefault = cell_of dv; cstrict = bool_of strict }
   | _ -> failwith "class"
+let rec nat_of_int n = if n <= 0 then O else S (nat_of_int (n - 1))
+let nargs_of = function L [A "class"; _; _; _; _; n] -> nat_of_int (int_of_string (atom n)) | _ -> O
 let column_of = function L [n; d; cs] -> { pcname = str_of n; pcdt = pdt_of d; pccells = cells_of cs } | _ -> failwith "column"
 let index_of = function L [k; d; cs] -> { ikd = ikind_of k; idt = pdt_of d; ilabels = cells_of cs } | _ -> failwith "index"
 let table_of = function L [A "table"; ix; cols] -> { tindex = index_of ix; tcols = List.map column_of (list_of cols) } | _ -> failwith "table"
@@ -578,7 +626,7 @@ let handle line =
   match parse (tokenize line) with
   | L [A "export"; st; it; ii; m; c] ->
       let t = model_to_table (bool_of st) (bool_of it) (bool_of ii) (model_of m) in
-      let rt = match t with TOk tb -> jres jmodel (from_table (class_of c) tb) | _ -> "null" in
+      let rt = match t with TOk tb -> jres jmodel (from_dataframe_call (nargs_of c) (class_of c) tb) | _ -> "null" in
       "{\"table\":" ^ jres jtable t ^ ",\"rt\":" ^ rt ^ "}"
   | L [A "linker"; st; it; ii; name; m; subs] ->
       let l = { lname = cell_of name; lmodel = model_of m;
@@ -587,6 +635,16 @@ let handle line =
   | L [A "container"; sp; vars] ->
       let vs = List.map (function L [n; s] -> (str_of n, series_of s) | _ -> failwith "var") (list_of vars) in
       "{\"table\":" ^ jres jtable (container_to_table (span_of sp) vs) ^ "}"
+  | L [A "pdseries"; sr] ->
+      let (d, cs) = pd_of_series (series_of sr) in "{\"dtype\":" ^ jstr (pdt_name d) ^ ",\"cells\":" ^ jlist jcell cs ^ "}"
+  | L [A "pdinfer"; cs] ->
+      let cells = cells_of cs in
+      let col = (match pd_infer cells with Some (d, cs') -> "{\"dtype\":" ^ jstr (pdt_name d) ^ ",\"cells\":" ^ jlist jcell cs' ^ "}" | None -> "{\"unmodelled\":true}") in
+      let idx = (match pd_index { spkind = SList; splabels = cells } with
+                 | Some ix -> "{\"kind\":" ^ jstr (ikind_name ix.ikd) ^ ",\"dtype\":" ^ jstr (pdt_name ix.idt) ^ ",\"labels\":" ^ jlist jcell ix.ilabels ^ "}"
+                 | None -> "{\"unmodelled\":true}") in
+      "{\"col\":" ^ col ^ ",\"index\":" ^ idx ^ "}"
+  | L [A "pdcast"; d; sr] -> "{\"cast\":" ^ jres (jlist jcell) (cast_series (ndt_of d) (series_of sr)) ^ "}"
   | L [A "symbols"; ss] ->
       let t = symbols_to_table (List.map sym_of (list_of ss)) in
       let rt = match t with TOk tb -> jres (jlist jsym) (table_to_symbols tb) | _ -> "null" in
@@ -773,6 +831,8 @@ def modellable(case, o):
     if k in ('export', 'solved'):
         pre = o.get('pre')
         return pre is not None and all(cells_ok(v[2]) and v[1] in NDT for v in pre['vars']) and cells_ok(pre['span']['labels'])
+    if k == 'pd':
+        return cells_ok(case['cells']) and all(cells_ok(v.get('cells', v.get('labels', []))) for v in o.values() if isinstance(v, dict))
     if k == 'container':
         return all(cells_ok(v[2]) and v[1] in NDT for v in o['index']) and cells_ok(o['labels'])
     if k == 'symbols':
@@ -793,14 +853,20 @@ def encode(case, o):
             cl = dict(cl, names=[x for x in o['pre']['names']])
         d = cl.get('dtype') or 'float'
         dv = cl.get('default') or ['fi', 0]
-        return '(export %d %d %d %s (class %s %s %s %d))' % (st, it, ii, sx_model_from_obs(case['span'], o['pre']),
-                                                            sx_names(cl['names']), NDT[d], sx_cell(dv), 1 if cl.get('strict') else 0)
+        return '(export %d %d %d %s (class %s %s %s %d %d))' % (st, it, ii, sx_model_from_obs(case['span'], o['pre']),
+                                                               sx_names(cl['names']), NDT[d], sx_cell(dv), 1 if cl.get('strict') else 0, int(cl.get('nargs') or 0))
     if k == 'linker':
         st, it, ii = case['flags']
         pre = o['pre']
         subs = ' '.join('(%s %s)' % (sx_cell(kk), sx_model_from_obs(case['span'], m)) for kk, m in pre['subs'])
         lspan = case['span'] if case['subs'] else {'type': 'list', 'labels': []}
         return '(linker %d %d %d %s %s (%s))' % (st, it, ii, sx_cell(case['name']), sx_model_from_obs(lspan, pre['linker']), subs)
+    if k == 'pd':
+        if case['op'] == 'series':
+            return '(pdseries (%s %s))' % (NDT[o['arr'][0]], sx_cells(o['arr'][1]))
+        if case['op'] == 'cast':
+            return '(pdcast %s (%s %s))' % (NDT[case['target']], NDT[o['arr'][0]], sx_cells(o['arr'][1]))
+        return '(pdinfer %s)' % sx_cells(case['cells'])
     if k == 'container':
         return '(container %s (%s))' % (sx_span(case['span']), ' '.join('(%s (%s %s))' % (hexs(kk), NDT[d], sx_cells(cs)) for kk, d, cs in o['index']))
     if k == 'symbols':
@@ -832,6 +898,26 @@ def compare(case, o, r):
             if canon_model(o['rt']) != r['rt']:
                 return 'from_dataframe: impl %s model %s' % (json.dumps(canon_model(o['rt']))[:600], json.dumps(r['rt'])[:600])
         return None
+    if k == 'pd':
+        cc = lambda cs: [canon_cell(c) for c in cs]
+        if case['op'] == 'series':
+            mine = {'dtype': o['dtype'], 'cells': cc(o['cells'])}
+            return None if mine == r else 'pandas column of a %s array: impl %s model %s' % (case['dtype'], json.dumps(mine)[:300], json.dumps(r)[:300])
+        if case['op'] == 'cast':
+            if r['cast'] == {'unmodelled': True}:
+                return None
+            mine = o['cast'] if isinstance(o['cast'], dict) else cc(o['cast'][1])
+            return None if mine == r['cast'] else 'astype(%s): impl %s model %s' % (case['target'], json.dumps(mine)[:300], json.dumps(r['cast'])[:300])
+        out = []
+        if 'col' in o and r['col'] != {'unmodelled': True}:
+            mine = {'dtype': o['col']['dtype'], 'cells': cc(o['col']['cells'])}
+            if mine != r['col']:
+                out.append('column inference: impl %s model %s' % (json.dumps(mine)[:300], json.dumps(r['col'])[:300]))
+        if r['index'] != {'unmodelled': True}:
+            mine = o['index'] if 'raise' in o['index'] else {'kind': o['index']['kind'], 'dtype': o['index']['dtype'], 'labels': cc(o['index']['labels'])}
+            if mine != r['index']:
+                out.append('index inference: impl %s model %s' % (json.dumps(mine)[:300], json.dumps(r['index'])[:300]))
+        return '; '.join(out) or None
     if k == 'container':
         if r['table'] == {'unmodelled': True}:
             return None
@@ -869,7 +955,7 @@ def correspond(cases, obs, tag, tier):
         return [], [err]
     bad, unm, texts = [], 0, {}
     for i, r in zip(idx, res):
-        if any(r.get(f) == {'unmodelled': True} for f in ('table', 'tables', 'rt')):
+        if any(r.get(f) == {'unmodelled': True} for f in ('table', 'tables', 'rt', 'cast', 'col', 'index')):
             unm += 1
         t = compare(cases[i], obs[i], r)
         if t is not None:
@@ -963,6 +1049,8 @@ def in_rt_guard(case, o):
         return False
     if cl.get('strict') and (case['flags'][0] or case['flags'][1]):
         return False
+    if cl.get('nargs'):
+        return False
     if cl.get('default') is not None and not all(nm in [c[0] for c in data_cols] for nm in names):
         return False
     sdt = {kk: d for kk, d, _ in o['pre']['vars']}
@@ -1010,6 +1098,8 @@ def oracle(case, o):
                     elif len(new[name]) != len(cells) or not all(values_equal(a, b) for a, b in zip(new[name], cells)):
                         bad('from_dataframe', 'values', 'not-reproduced', 'variable %s: %s became %s' % (name, cells[:6], new[name][:6]))
         return fails
+    if k == 'pd':
+        return fails                              # library behaviour: no clause of the property; K validates the table
     if k == 'container':
         pre = {'span': {'labels': o['labels']}, 'names': [v[0] for v in o['index']], 'vars': o['index'], 'status': ['str', []], 'iterations': ['int', []]}
         oracle_table(pre, o['table'], [False, False, True], 'to_dataframe', fails)
@@ -1070,6 +1160,8 @@ def nontrivial(case, o):
         if 'raise' in t or ('rt' in o and 'raise' in o['rt']):
             return True
         return len(t['index']['labels']) >= 2 and len(t['cols']) >= 2
+    if k == 'pd':
+        return True
     if k == 'container':
         t = o['table']
         return 'raise' in t or (len(t['index']['labels']) >= 2 and len(t['cols']) >= 2)
@@ -1090,6 +1182,8 @@ def bucket(case, o):
         return '%s/%s/%s/export=%s/rt=%s/%s' % (k + ('-tampered' if case.get('tamper') else ''), case['span']['type'], case.get('dtype', 'float'),
                                                 t['raise'] if 'raise' in t else 'ok', 'none' if rt is None else rt['raise'] if 'raise' in rt else 'ok',
                                                 'in-guard:' + rt_class(case, o)[1] if in_rt_guard(case, o) else 'outside-guard')
+    if k == 'pd':
+        return 'pdtable/' + case['entry']
     if k == 'container':
         return 'container/%s/%s' % ('model' if case.get('model') else 'vc', case['span']['type'])
     if k == 'linker':
@@ -1114,6 +1208,8 @@ def shrink_candidates(case):
             if len(lines) > 1:
                 yield dict(case, script='\n'.join(lines[:i] + lines[i + 1:]))
     elif k == 'export':
+        if case.get('mixin'):
+            yield {a: b for a, b in case.items() if a != 'mixin'}
         for i in range(len(case.get('extra', []))):
             yield dict(case, extra=case['extra'][:i] + case['extra'][i + 1:])
         for i, nm in enumerate(case['names']):
@@ -1265,8 +1361,20 @@ def gen_export(rng, spec, full):
                'default': rng.choice([None, None, ['fi', 1], ['i', 3], ['ff', 1, 1]]), 'strict': rng.random() < 0.25}
         if cls['dtype'] == 'str' and cls['default'] is not None and cls['default'][0] != 'i':
             cls['default'] = None
-    return {'kind': 'export', 'span': spec, 'dtype': dt, 'names': names, 'vals': vals, 'extra': extra, 'status': status, 'iters': iters,
+    if cls is not None:
+        u = rng.random()
+        if u < 0.1:
+            cls['engine'] = 'python'                       # a keyword passed through to __init__
+        elif u < 0.15:
+            cls['nargs'] = rng.choice([1, 2])              # an extra positional argument: TypeError at the call
+    case = {'kind': 'export', 'span': spec, 'dtype': dt, 'names': names, 'vals': vals, 'extra': extra, 'status': status, 'iters': iters,
             'flags': flags, 'cls': cls}
+    v = rng.random()
+    if v < 0.12:
+        case['mixin'] = 'alias'                            # AliasMixin model, to_dataframe() without use_aliases
+    elif v < 0.24:
+        case['mixin'] = 'pandasidx'                        # PandasIndexFeaturesMixin model
+    return case
 
 
 SCRIPTS = ['Y = X', 'Y = X + Y[-1]', 'Y = 0.5 * X[-1] + 1\nZ = Y + X', 'Y = X * Y', 'Y = X[1] - 2', '_Y = X\nZ = _Y[-1]']
@@ -1294,9 +1402,52 @@ def made_symbols(rng):
     return out
 
 
+def pd_table():
+    """The library-behaviour table of Data/Table.v, entry by entry (fixed, checked on every run; bucket pdtable/<entry>):
+    T1 pd_of_series   DataFrame({k: 1-D ndarray}) per array dtype -> column dtype, cells unchanged
+    T2 pd_infer       DataFrame(list of dicts) column / Index(list) per combination of Python objects
+    T3 np_cast        np.full(n, column.values).astype(model dtype) per (array dtype of the column, model dtype, cell)"""
+    out = []
+    pools = {'float': FLOATS, 'int': INTS, 'bool': BOOLS, 'str': STRS}
+    for dt, pool in pools.items():
+        out.append({'kind': 'pd', 'op': 'series', 'entry': 'T1/%s-array' % dt, 'dtype': dt, 'cells': [list(c) for c in pool]})
+        out.append({'kind': 'pd', 'op': 'series', 'entry': 'T1/%s-array-empty' % dt, 'dtype': dt, 'cells': []})
+    objs = {'all-str': [['s', 'a'], ['s', '']], 'str+None': [['s', 'a'], ['none']], 'all-None': [['none'], ['none']], 'ints': [['i', 1], ['i', 2]],
+            'int+None': [['i', 1], ['none']], 'mixed': [['i', 1], ['s', 'b'], ['ff', 1, 1], ['b', True], ['none']], 'floats': [['ff', 1, 1], ['nan']], 'empty': [],
+            'bools': [['b', True], ['b', False]]}
+    for nm, cells in objs.items():
+        out.append({'kind': 'pd', 'op': 'series', 'entry': 'T1/object-array/' + nm, 'dtype': 'object', 'cells': cells})
+    day = 86400 * 10 ** 9
+    infer = {
+        'empty': [], 'all-None': [['none'], ['none']], 'one-None': [['none']], 'int64': [['i', 1], ['i', -2 ** 63], ['i', 2 ** 63 - 1]],
+        'uint64': [['i', 2 ** 63], ['i', 1]], 'uint64-max': [['i', 2 ** 64 - 1], ['i', 0]], 'int-beyond-uint64': [['i', 2 ** 64], ['i', 1]],
+        'int-below-int64': [['i', -2 ** 63 - 1], ['i', 0]], 'int-neg+uint64': [['i', 2 ** 63], ['i', -1]], 'bool': [['b', True], ['b', False]],
+        'str': [['s', 'a'], ['s', ''], ['s', 'nan']], 'str+None': [['s', 'a'], ['none']], 'None+str': [['none'], ['s', 'a']], 'int+None': [['i', 1], ['none']],
+        'None+int': [['none'], ['i', 0], ['i', -1]], 'int53+None': [['i', 2 ** 53], ['none']], 'int53+1+None': [['i', 2 ** 53 + 1], ['none']],
+        'float': [['ff', 1, 1], ['fi', 2], ['nz']], 'float+None': [['ff', 3, 1], ['none']], 'int+float': [['i', 1], ['ff', 5, 1]], 'float+int+None': [['fi', 1], ['none'], ['i', 3]],
+        'nan+float': [['nan'], ['fi', 1]], 'int53+1+float': [['i', 2 ** 53 + 1], ['ff', 1, 1]], 'bool+int': [['b', True], ['i', 2]], 'int+bool': [['i', 1], ['b', True]],
+        'bool+None': [['b', True], ['none']], 'bool+float': [['b', True], ['ff', 3, 1]], 'str+int': [['s', 'a'], ['i', 1]], 'str+float': [['s', 'a'], ['ff', 3, 1]],
+        'str+int+None': [['s', 'a'], ['i', 1], ['none']], 'tuple': [['tup', 1, 2], ['tup', 3, 4]], 'tuple-str': [['tup', 2000, 'spring'], ['tup', 2000, 'autumn']],
+        'tuple+None': [['tup', 1, 2], ['none']], 'tuple+int': [['tup', 1, 2], ['i', 1]], 'timestamp': [['ts', TS_D0 + day], ['ts', TS_D0]], 'timedelta': [['td', 2 * day], ['td', day]],
+        'period-Y': [['per', 1, 31], ['per', 1, 30]], 'period-Q': [['per', 2, 120], ['per', 2, 120]], 'period-mixed-freq': [['per', 1, 30], ['per', 2, 120]],
+        'timestamp+int': [['ts', TS_D0], ['i', 1]], 'period+None': [['per', 1, 30], ['none']], 'timestamp+None': [['ts', TS_D0], ['none']], 'timedelta+None': [['td', day], ['none']],
+        'negzero': [['nz'], ['fi', 0]], 'inf': [['pinf'], ['ninf']], 'dup-int': [['i', 1], ['i', 1]], 'uint64+None': [['i', 2 ** 63], ['none']], 'uint64+float': [['i', 2 ** 63], ['ff', 3, 1]],
+    }
+    for nm, cells in infer.items():
+        out.append({'kind': 'pd', 'op': 'infer', 'entry': 'T2/' + nm, 'cells': cells})
+    src = dict(pools)
+    src['object'] = [['i', 1], ['s', 'b'], ['s', '1'], ['ff', 1, 1], ['b', True], ['none'], ['i', 2 ** 63], ['nan']]
+    for sdt, pool in src.items():
+        for target in ('float', 'int', 'bool', 'str', 'object'):
+            for i, c in enumerate(pool):
+                out.append({'kind': 'pd', 'op': 'cast', 'entry': 'T3/%s->%s' % (sdt, target), 'dtype': sdt, 'target': target, 'cells': [list(c)], 'i': i})
+            out.append({'kind': 'pd', 'op': 'cast', 'entry': 'T3/%s->%s' % (sdt, target), 'dtype': sdt, 'target': target, 'cells': [], 'i': -1})
+    return out
+
+
 def gen(rng, tier):
     quick = tier == 'quick'
-    cases = []
+    cases = pd_table()
     specs = span_specs(5 if quick else 7)
     # fixed boundary cases first: every flag combination on one model with underscore names and every dtype
     base = {'type': 'range', 'start': 2000, 'step': 1, 'n': 3}
